@@ -162,8 +162,9 @@ def check_model_writes_before_restore(res: Result, db: DB, entry: str, state_key
   """R-PAIR.4: set_const_0 / set_const_spring compute derived *Model* fields from Data evaluated at a temporary state
   (qpos0 / qpos_spring). Every launch that writes a Model field, and every launch that produces a scratch array which a
   Model-field writer consumes, must therefore run while the temporary state is in effect - before the restoring copy of
-  the state field. After the restore (and the optional recomputation of Data at the caller's state) nothing may write
-  a Model field any more: it would be computed from the caller's configuration instead of the reference one."""
+  the state field. After the restore no launch may write a Model field from the restored state field or from Data
+  (or scratch derived from Data) that was rewritten after the restore: it would be evaluated at the caller's configuration
+  instead of the reference one."""
   hi = db.trace(entry, **(lit or {}))
   effs = effects.trace_effects(db, hi)
   n = 0
@@ -176,13 +177,19 @@ def check_model_writes_before_restore(res: Result, db: DB, entry: str, state_key
         continue
       r = restores[-1]
       late = []
+      # values at the caller's configuration: the restored state field itself and everything (re)written after the
+      # restore, transitively through scratch arrays. A Model-field writer that runs after the restoring copy but reads
+      # only Data computed BEFORE it (still the reference configuration's) is as good as one that runs before it.
+      caller_state = {key}
       for j in range(r + 1, len(effs)):
         e = effs[j]
-        if e.ev.kind != "launch":
-          continue
-        mw = sorted(k for k in e.writes if k.startswith("Model."))
-        if mw and any(k.startswith("Data.") or k.startswith("temp:") for k in e.reads):
+        mw = sorted(k for k in e.writes if k.startswith("Model.")) if e.ev.kind == "launch" else []
+        bad_inputs = sorted(k for k in e.reads if k in caller_state)
+        if mw and bad_inputs:
           late.append((e, mw))
+        for k in e.writes:
+          if k.startswith("Data.") or (k.startswith("temp:") and bad_inputs):
+            caller_state.add(k)
       n += 1
       res.ob(
         not late,
